@@ -2,6 +2,8 @@ import PMH.Model.Basic
 import PMH.Model.Scalar
 import PMH.Model.MaxTracker
 import PMH.Model.InvHashGen
+import PMH.Model.Prng
+import PMH.Model.FYShuffle
 import Std.Data.HashMap
 /-!
 # `pmhdriver`: line protocol in front of the executable models
@@ -14,6 +16,7 @@ open PMH
 
 structure DState where
   mt : Std.HashMap String (Tracker Float) := {}
+  fy : Std.HashMap String FY := {}
 
 def errWord (e : Err) : String :=
   match e with
@@ -57,11 +60,73 @@ def stepIh : List String → String
   | ["i32", x] => match parseHex x with | some n => toHexW 8 (InvHashGen.int32_hash_inverse (BitVec.ofNat 32 n)).toNat | none => "bad-op"
   | _ => "bad-op"
 
+def iter {α β : Type} (f : α → β × α) : Nat → α → List β
+  | 0, _ => []
+  | n + 1, a => let (b, a') := f a; b :: iter f n a'
+
+def iterE {α β : Type} (f : α → Except Err (β × α)) : Nat → α → Except Err (List β)
+  | 0, _ => .ok []
+  | n + 1, a => match f a with
+    | .ok (b, a') => match iterE f n a' with
+      | .ok l => .ok (b :: l)
+      | .error e => .error e
+    | .error e => .error e
+
+def u64OfHex (s : String) : Option UInt64 := (parseHex s).map (·.toUInt64)
+
+def stepXo : List String → String
+  | ["seed", s, n] => match u64OfHex s, n.toNat? with
+    | some s, some n => joinSp ((iter Xo.next n (Xo.seedFromU64 s)).map u64Hex)
+    | _, _ => "bad-op"
+  | ["unif01", s, n] => match u64OfHex s, n.toNat? with
+    | some s, some n => joinSp ((iter unif01 n (Xo.seedFromU64 s)).map f64Hex)
+    | _, _ => "bad-op"
+  | ["unif01f32", s, n] => match u64OfHex s, n.toNat? with
+    | some s, some n => joinSp ((iter unif01f32 n (Xo.seedFromU64 s)).map f32Hex)
+    | _, _ => "bad-op"
+  | ["unifusize", s, lo, hi, n] => match u64OfHex s, lo.toNat?, hi.toNat?, n.toNat? with
+    | some s, some lo, some hi, some n =>
+      (match iterE (unifUsize lo hi) n (Xo.seedFromU64 s) with | .ok l => joinSp (l.map toString) | .error e => errWord e)
+    | _, _, _, _ => "bad-op"
+  | ["unifu64", s, lo, hi, n] => match u64OfHex s, lo.toNat?, hi.toNat?, n.toNat? with
+    | some s, some lo, some hi, some n =>
+      (match iterE (unifU64 lo hi) n (Xo.seedFromU64 s) with | .ok l => joinSp (l.map toString) | .error e => errWord e)
+    | _, _, _, _ => "bad-op"
+  | ["words", a, b, c, d, n] => match u64OfHex a, u64OfHex b, u64OfHex c, u64OfHex d, n.toNat? with
+    | some a, some b, some c, some d, some n => joinSp ((iter Xo.next n (Xo.fromWords a b c d)).map u64Hex)
+    | _, _, _, _, _ => "bad-op"
+  | _ => "bad-op"
+
+def dumpNats (a : Array Nat) : String := joinSp (a.toList.map toString)
+
+def topOffsets (n : Nat) : Nat :=
+  let xsi : Float := 1.0 - Float.ofScientific 2220446049250313 true 31
+  (List.range n).foldl (fun bad i => if FY.offsetOf xsi (i + 1) ≥ i + 1 then bad + 1 else bad) 0
+
+def stepFy (st : DState) : List String → DState × String
+  | ["new", n, m] => match m.toNat? with
+    | some m => ({ st with fy := st.fy.insert n (FY.new m) }, "ok")
+    | none => (st, "bad-op")
+  | ["next", n, u] => match st.fy[n]?, u64OfHex u with
+    | some s, some u => (match s.nextU64 u with
+      | .ok (k, s') => ({ st with fy := st.fy.insert n s' }, toString k ++ " | " ++ dumpNats s'.v)
+      | .error e => (st, errWord e))
+    | _, _ => (st, "bad-op")
+  | ["reset", n] => match st.fy[n]? with
+    | some s => let s' := s.reset; ({ st with fy := st.fy.insert n s' }, dumpNats s'.v)
+    | none => (st, "bad-op")
+  | ["topoffsets", n] => match n.toNat? with
+    | some n => (st, toString (topOffsets n))
+    | none => (st, "bad-op")
+  | _ => (st, "bad-op")
+
 def step (st : DState) (line : String) : DState × String :=
   match (line.trimAscii.toString.splitOn " ").filter (· ≠ "") with
   | "case" :: id :: _ => (st, "case " ++ id)
   | "mt" :: rest => stepMt st rest
   | "ih" :: rest => (st, stepIh rest)
+  | "xo" :: rest => (st, stepXo rest)
+  | "fy" :: rest => stepFy st rest
   | _ => (st, "bad-op")
 
 partial def loop (h : IO.FS.Stream) (out : IO.FS.Stream) (st : DState) : IO Unit := do
